@@ -145,11 +145,16 @@ def inSeg (t0 : Rat) (bts : List Rat) (L : Nat) (t : Rat) : Bool :=
      | some h => decide (t < h)
      | none => true)
 
-/-- the level whose segment is written last at time `t` (the loop over the branches of a member
-    runs in increasing depth, later writes win); `none`: no segment covers `t`, the entry keeps
-    its initial value 0 -/
+/-- largest `L < n` with `p L` (the loop over the branches of a member runs in increasing depth
+    and later boolean-mask writes win) -/
+def lastLevel (p : Nat → Bool) : Nat → Option Nat
+  | 0 => none
+  | n + 1 => if p n then some n else lastLevel p n
+
+/-- the level whose segment is written last at time `t`; `none`: no segment covers `t`, the entry
+    keeps its initial value 0 -/
 def levelAt (t0 : Rat) (bts : List Rat) (t : Rat) : Option Nat :=
-  ((List.range (bts.length + 1)).reverse.find? (fun L => inSeg t0 bts L t))
+  lastLevel (fun L => inSeg t0 bts L t) (bts.length + 1)
 
 /-- number of earlier time stamps of the same variable in segment `L` (position inside the
     boolean-mask assignment `control_indices[els] = …`) -/
